@@ -861,3 +861,156 @@ Proof.
   destruct Hnf as [[E _]|Hnf]; [contradiction|].
   rewrite Hs, Hl. intros Hin. rewrite Forall_forall in Hnf. now apply (Hnf _ Hin).
 Qed.
+
+(* ------------------------------------------------------------------------------------ *)
+(** * D. path_join / join2 (C09) *)
+
+Theorem join2_both a b : a <> [] -> b <> [] -> join2 a b = clean (a ++ s_slash ++ b).
+Proof. destruct a; [congruence|]. destruct b; [congruence|]. reflexivity. Qed.
+
+Lemma join2_nil_r a : a <> [] -> join2 a [] = clean a.
+Proof. destruct a; [congruence | reflexivity]. Qed.
+Lemma join2_nil_l b : b <> [] -> join2 [] b = clean b.
+Proof. destruct b; [congruence | reflexivity]. Qed.
+Lemma join2_nil_nil : join2 [] [] = [].
+Proof. reflexivity. Qed.
+
+Lemma split_aux_app_gen x y : forall cur,
+  split_aux (x ++ SLASH :: y) cur = split_aux x cur ++ split_aux y [].
+Proof.
+  induction x as [|c x IH]; intros cur.
+  - reflexivity.
+  - cbn [app split_aux]. destruct (N.eqb c SLASH); [now rewrite IH | apply IH].
+Qed.
+
+Lemma split_slash_app_gen x y : split_slash (x ++ SLASH :: y) = split_slash x ++ split_slash y.
+Proof. apply split_aux_app_gen. Qed.
+
+(* norm_aux processes a concatenation piecewise *)
+Lemma norm_aux_app rooted l1 l2 : forall st,
+  norm_aux rooted (l1 ++ l2) st = norm_aux rooted l2 (rev (norm_aux rooted l1 st)).
+Proof.
+  induction l1 as [|s l1 IH]; intros st.
+  - cbn [app norm_aux]. now rewrite rev_involutive.
+  - cbn [app norm_aux]. destruct (is_empty s || is_dot s); [apply IH|].
+    destruct (is_dotdot s); [|apply IH].
+    destruct st as [|top st]; [destruct rooted; apply IH|].
+    destruct (is_dotdot top); apply IH.
+Qed.
+
+Lemma clean_segs_cat x y : x <> [] ->
+  clean_segs (x ++ SLASH :: y) = norm_aux (is_rooted x) (split_slash x ++ split_slash y) [].
+Proof.
+  intros Hx. unfold clean_segs. now rewrite is_rooted_app, split_slash_app_gen.
+Qed.
+
+(* feeding the pieces of a rendered normal form = feeding the normal form *)
+Lemma norm_split_render r rz L st : nf rz L ->
+  norm_aux r (split_slash (render rz L)) st = norm_aux r L st.
+Proof.
+  intros Hnf. destruct L as [|x L].
+  - destruct rz; reflexivity.
+  - rewrite split_render; [|discriminate | now apply nf_slash_free in Hnf].
+    destruct rz; [now rewrite norm_aux_skip by now left | reflexivity].
+Qed.
+
+Lemma norm_split_clean r z st :
+  norm_aux r (split_slash (clean z)) st = norm_aux r (clean_segs z) st.
+Proof. apply norm_split_render, clean_segs_nf. Qed.
+
+Definition normal_seg (s : str) : Prop := s <> [] /\ s <> s_dot /\ s <> s_dotdot.
+
+Lemma norm_aux_skip_mid r l1 s l2 st : s = [] \/ s = s_dot ->
+  norm_aux r (l1 ++ s :: l2) st = norm_aux r (l1 ++ l2) st.
+Proof. intros H. rewrite !norm_aux_app. now rewrite norm_aux_skip. Qed.
+
+Lemma norm_aux_cancel_mid r l1 top l2 st : normal_seg top ->
+  norm_aux r (l1 ++ top :: s_dotdot :: l2) st = norm_aux r (l1 ++ l2) st.
+Proof.
+  intros [H1 [H2 H3]]. rewrite !norm_aux_app. rewrite norm_aux_push by assumption.
+  now rewrite norm_aux_dd_pop.
+Qed.
+
+(* resolving first WITHOUT clamping (unrooted) and then again is the same as resolving once *)
+Lemma norm_aux_absorb r X : forall st2 st,
+  Forall (fun s => s <> [] /\ s <> s_dot) st2 ->
+  norm_aux r (norm_aux false X st2) st = norm_aux r (rev st2 ++ X) st.
+Proof.
+  induction X as [|s X IH]; intros st2 st Hst2.
+  - cbn [norm_aux]. now rewrite app_nil_r.
+  - destruct (seg_cases s) as [Hskip|[->|[Hn [Hd Hdd]]]].
+    + rewrite norm_aux_skip by exact Hskip. rewrite norm_aux_skip_mid by exact Hskip. now apply IH.
+    + destruct st2 as [|top st2].
+      * rewrite norm_aux_dd_nil_unrooted. rewrite IH; [reflexivity|].
+        constructor; [split; discriminate | constructor].
+      * inversion Hst2 as [|? ? [Ht1 Ht2] Hst2']; subst.
+        destruct (is_dotdot top) eqn:Et.
+        -- apply is_dotdot_true in Et. subst top. rewrite norm_aux_dd_dd.
+           rewrite IH; [|constructor; [split; discriminate | exact Hst2]].
+           cbn [rev]. now rewrite <- !app_assoc.
+        -- apply is_dotdot_false in Et. rewrite norm_aux_dd_pop by exact Et.
+           rewrite IH by exact Hst2'. cbn [rev]. rewrite <- app_assoc. cbn [app].
+           symmetry. apply norm_aux_cancel_mid. repeat split; assumption.
+    + rewrite norm_aux_push by assumption. rewrite IH by (constructor; [split; assumption | exact Hst2]).
+      cbn [rev]. now rewrite <- app_assoc.
+Qed.
+
+Lemma norm_split_clean_unrooted r z st : is_rooted z = false ->
+  norm_aux r (split_slash (clean z)) st = norm_aux r (split_slash z) st.
+Proof.
+  intros Hz. rewrite norm_split_clean. unfold clean_segs. rewrite Hz.
+  now rewrite norm_aux_absorb by constructor.
+Qed.
+
+Lemma join2_nonnil_l a b : a <> [] -> join2 a b <> [].
+Proof. intros H. rewrite join2_nonempty_l by exact H. apply clean_nonnil. Qed.
+Lemma join2_nonnil_r a b : b <> [] -> join2 a b <> [].
+Proof.
+  intros H. destruct a; [rewrite join2_nil_l by exact H; apply clean_nonnil|].
+  apply join2_nonnil_l. discriminate.
+Qed.
+
+(* segments and rootedness of a join of two non-empty strings *)
+Lemma clean_segs_join2_both a b : a <> [] -> b <> [] ->
+  clean_segs (join2 a b) = norm_aux (is_rooted a) (split_slash a ++ split_slash b) [].
+Proof.
+  intros Ha Hb. rewrite join2_both by assumption. rewrite clean_segs_clean.
+  cbn [s_slash app]. now apply clean_segs_cat.
+Qed.
+
+Lemma is_rooted_join2_both a b : a <> [] -> is_rooted (join2 a b) = is_rooted a.
+Proof.
+  intros Ha. rewrite join2_nonempty_l by exact Ha. rewrite is_rooted_clean.
+  destruct (is_empty b); [reflexivity | now apply is_rooted_app].
+Qed.
+
+Lemma clean_segs_self z : norm_aux (is_rooted z) (clean_segs z) [] = clean_segs z.
+Proof. apply (norm_aux_id _ _ []). apply clean_segs_nf. Qed.
+
+(* D2: joining is associative when the middle element is not rooted *)
+Theorem join2_assoc_unrooted a b c : a <> [] -> b <> [] -> c <> [] -> is_rooted b = false ->
+  join2 (join2 a b) c = join2 a (join2 b c).
+Proof.
+  intros Ha Hb Hc Hrb.
+  pose proof (join2_nonnil_l a b Ha) as Hab. pose proof (join2_nonnil_l b c Hb) as Hbc.
+  rewrite (join2_both (join2 a b) c) by assumption.
+  rewrite (join2_both a (join2 b c)) by assumption. cbn [s_slash app].
+  apply clean_eq_iff. split.
+  - rewrite !is_rooted_app by assumption. now apply is_rooted_join2_both.
+  - rewrite !clean_segs_cat by assumption. rewrite is_rooted_join2_both by exact Ha.
+    rewrite (norm_aux_app _ (split_slash (join2 a b))).
+    rewrite (join2_both a b) by assumption. cbn [s_slash app].
+    rewrite norm_split_clean. rewrite clean_segs_cat by exact Ha.
+    pose proof (clean_segs_self (a ++ SLASH :: b)) as Hself.
+    rewrite clean_segs_cat in Hself by exact Ha. rewrite is_rooted_app in Hself by exact Ha.
+    rewrite Hself. rewrite <- norm_aux_app.
+    rewrite (norm_aux_app _ (split_slash a) (split_slash (join2 b c))).
+    rewrite (join2_both b c) by assumption. cbn [s_slash app].
+    rewrite norm_split_clean_unrooted by (now rewrite is_rooted_app).
+    rewrite split_slash_app_gen. rewrite <- norm_aux_app. now rewrite app_assoc.
+Qed.
+
+(* it is NOT associative in general: a rooted middle element clamps ".." at ITS root *)
+Example join2_not_assoc :   (* a = "a", b = "/", c = ".." : "." versus "a" *)
+  join2 (join2 [97%N] s_slash) s_dotdot = s_dot /\ join2 [97%N] (join2 s_slash s_dotdot) = [97%N].
+Proof. vm_compute. auto. Qed.
